@@ -761,6 +761,12 @@ def rand_supply(rng, name):
     if t == 'CAL-ADDRESS':
         return 'cal-address', 'mailto:' + ''.join(rng.choice('abc.@') for _ in range(8)), ['CAL-ADDRESS']
     if t == 'FLOAT':
+        r = rng.random()
+        if r < 0.25:
+            # every float is a coordinate: many decimals, positions within metres of the equator / prime meridian, signed zeros
+            pick = lambda lim: rng.choice([rng.uniform(-lim, lim), rng.uniform(-1e-4, 1e-4), rng.uniform(-1e-7, 1e-7), 0.0, -0.0,
+                                           lim, -lim, 1.25e-05, -4.17e-05, 48.85837009999])        # noqa: E731
+            return 'geo', (pick(90), pick(180)), ['FLOAT']
         return 'geo', (round(rng.uniform(-90, 90), 4), round(rng.uniform(-180, 180), 4)), ['FLOAT']
     if t == 'DATE':
         return 'date', rand_dt(rng, 'date'), ['DATE']
